@@ -1,5 +1,7 @@
 package influxql
 
+import "time"
+
 // C09 — constant folding never changes the value of an expression.
 
 const (
@@ -189,4 +191,137 @@ func fmtMap(m map[string]interface{}) string {
 		}
 	}
 	return out + "}"
+}
+
+// ---- time arithmetic: timestamp or now() plus or minus a duration, differences, comparisons
+
+var c09Times = []struct {
+	s  string
+	ns int64
+}{
+	{"2000-01-01T00:00:00Z", 946684800000000000},
+	{"2000-01-01T01:00:00+01:00", 946684800000000000}, // the same instant written in another zone
+	{"2000-01-01", 946684800000000000},
+	{"2000-01-01T00:00:00.000000001Z", 946684800000000001},
+	{"1999-12-31T23:59:59.999999999Z", 946684799999999999},
+	{"2000-01-01 00:00:01", 946684801000000000},
+}
+
+func c09CmpTruth(op Token, a, b int64) bool {
+	r := vfAnd(op == EQ, a == b)
+	r = vfOr(r, vfAnd(op == NEQ, a != b))
+	r = vfOr(r, vfAnd(op == LT, a < b))
+	r = vfOr(r, vfAnd(op == LTE, a <= b))
+	r = vfOr(r, vfAnd(op == GT, a > b))
+	r = vfOr(r, vfAnd(op == GTE, a >= b))
+	return r
+}
+
+func vfH_C09_time(tier int) {
+	now := vfInt64()
+	vfAssume(now >= -(1 << 61))
+	vfAssume(now <= 1<<61)
+	d := vfInt64()
+	vfAssume(d >= -(1 << 61))
+	vfAssume(d <= 1<<61)
+	valuer := &NowValuer{Now: time.Unix(0, now)}
+	nowCall := &Call{Name: "now"}
+	dl := &DurationLiteral{Val: time.Duration(d)}
+	cmpOp := func() Token {
+		t := Token(vfInt())
+		vfAssume(vfOr(vfOr(t == EQ, t == NEQ), vfOr(vfOr(t == LT, t == LTE), vfOr(t == GT, t == GTE))))
+		return t
+	}
+	var expr Expr
+	check := func(red Expr) {}
+	switch vfChoice(7) {
+	case 0: // now() + d
+		expr = &BinaryExpr{Op: ADD, LHS: nowCall, RHS: dl}
+		check = func(red Expr) {
+			lit, ok := red.(*TimeLiteral)
+			vfAssert(ok, "C09/time/now-plus-duration-folds-to-an-instant")
+			if ok {
+				vfAssert(lit.Val.UnixNano() == now+d, "C09/time/now-plus-duration-is-the-exact-instant")
+			}
+		}
+	case 1: // now() - d
+		expr = &BinaryExpr{Op: SUB, LHS: nowCall, RHS: dl}
+		check = func(red Expr) {
+			lit, ok := red.(*TimeLiteral)
+			vfAssert(ok, "C09/time/now-minus-duration-folds-to-an-instant")
+			if ok {
+				vfAssert(lit.Val.UnixNano() == now-d, "C09/time/now-minus-duration-is-the-exact-instant")
+			}
+		}
+	case 2: // timestamp (string) +- duration
+		t := c09Times[vfChoice(len(c09Times))]
+		d2 := vfInt64()
+		vfAssume(d2 >= -(1 << 60))
+		vfAssume(d2 <= 1<<60)
+		minus := vfChoice(2) == 1
+		op, want := Token(ADD), t.ns+d2
+		if minus {
+			op, want = SUB, t.ns-d2
+		}
+		expr = &BinaryExpr{Op: op, LHS: &StringLiteral{Val: t.s}, RHS: &DurationLiteral{Val: time.Duration(d2)}}
+		check = func(red Expr) {
+			lit, ok := red.(*TimeLiteral)
+			vfAssert(ok, "C09/time/timestamp-plus-or-minus-duration-folds-to-an-instant")
+			if ok {
+				vfAssert(lit.Val.UnixNano() == want, "C09/time/timestamp-plus-or-minus-duration-is-the-exact-instant")
+			}
+		}
+	case 3: // difference of two timestamps
+		a := c09Times[vfChoice(len(c09Times))]
+		b := c09Times[vfChoice(len(c09Times))]
+		expr = &BinaryExpr{Op: SUB, LHS: &StringLiteral{Val: a.s}, RHS: &StringLiteral{Val: b.s}}
+		check = func(red Expr) {
+			lit, ok := red.(*DurationLiteral)
+			vfAssert(ok, "C09/time/timestamp-difference-folds-to-a-duration")
+			if ok {
+				vfAssert(int64(lit.Val) == a.ns-b.ns, "C09/time/timestamp-difference-is-exact")
+			}
+		}
+	case 4: // comparison of two written timestamps (also the same instant in different zones)
+		a := c09Times[vfChoice(len(c09Times))]
+		b := c09Times[vfChoice(len(c09Times))]
+		op := cmpOp()
+		expr = &BinaryExpr{Op: op, LHS: &StringLiteral{Val: a.s}, RHS: &StringLiteral{Val: b.s}}
+		check = func(red Expr) {
+			lit, ok := red.(*BooleanLiteral)
+			vfAssert(ok, "C09/time/timestamp-comparison-folds-to-a-truth-value")
+			if ok {
+				vfAssert(lit.Val == c09CmpTruth(op, a.ns, b.ns), "C09/time/timestamp-comparison-is-exact")
+			}
+		}
+	case 5: // now() - d compared with a written timestamp
+		b := c09Times[vfChoice(len(c09Times))]
+		op := cmpOp()
+		expr = &BinaryExpr{Op: op, LHS: &BinaryExpr{Op: SUB, LHS: nowCall, RHS: dl}, RHS: &StringLiteral{Val: b.s}}
+		check = func(red Expr) {
+			lit, ok := red.(*BooleanLiteral)
+			vfAssert(ok, "C09/time/now-relative-comparison-folds-to-a-truth-value")
+			if ok {
+				vfAssert(lit.Val == c09CmpTruth(op, now-d, b.ns), "C09/time/now-relative-comparison-is-exact")
+			}
+		}
+	default: // integer timestamp +- duration, then compared with now()
+		i := vfInt64()
+		vfAssume(i >= -(1 << 60))
+		vfAssume(i <= 1<<60)
+		op := cmpOp()
+		expr = &BinaryExpr{Op: op, LHS: &ParenExpr{Expr: &BinaryExpr{Op: ADD, LHS: &IntegerLiteral{Val: i}, RHS: dl}}, RHS: nowCall}
+		check = func(red Expr) {
+			lit, ok := red.(*BooleanLiteral)
+			vfAssert(ok, "C09/time/integer-timestamp-arithmetic-folds-to-a-truth-value")
+			if ok {
+				vfAssert(lit.Val == c09CmpTruth(op, i+d, now), "C09/time/integer-timestamp-arithmetic-is-exact")
+			}
+		}
+	}
+	red := Reduce(expr, valuer)
+	check(red)
+	again := Reduce(red, valuer)
+	vfAssert(vfDeepEqual(again, red), "C09/time/reduce-is-idempotent")
+	vfReach("C09_time/ok")
 }
